@@ -80,6 +80,8 @@ def mounted(environ, start_response):
     environ["wsgi.input"] = Limited(environ["wsgi.input"], n)
     # what a WSGI server does for an application mounted at `mount` (uwsgi mount / SCRIPT_NAME)
     path = environ.get("PATH_INFO", "")
+    if path.startswith("/.well-known/") or (mount and not (path == mount or path.startswith(mount + "/"))):
+        environ["wsgi.input"].read()  # a real server drains the request body before it closes the connection
     if path.startswith("/.well-known/"):
         return inner(environ, start_response)
     if mount:
@@ -98,8 +100,37 @@ class H(WSGIRequestHandler):
     def log_message(self, *a):
         pass
 
-make_server("127.0.0.1", int(os.environ["XV_PORT"]), mounted, handler_class=H).serve_forever()
+import socket, socketserver
+from wsgiref.simple_server import WSGIServer
+
+class UnixWSGIServer(WSGIServer):
+    # a unix-domain socket inside the configuration's own scratch directory: no TCP port to race for
+    address_family = socket.AF_UNIX
+    def server_bind(self):
+        socketserver.TCPServer.server_bind(self)
+        self.server_name, self.server_port = "localhost", 80
+        self.setup_environ()
+    def get_request(self):
+        sock, _ = self.socket.accept()
+        return sock, ("127.0.0.1", 0)  # handlers expect an (address, port) pair
+
+H.address_string = lambda self: "unix"
+srv = UnixWSGIServer(os.environ["XV_SOCK"], H)
+srv.set_app(mounted)
+srv.serve_forever()
 """
+
+
+class UnixHTTPConnection(http.client.HTTPConnection):
+    def __init__(self, path, timeout=30):
+        super().__init__("localhost", timeout=timeout)
+        self._path = path
+
+    def connect(self):
+        s = socket.socket(socket.AF_UNIX, socket.SOCK_STREAM)
+        s.settimeout(self.timeout)
+        s.connect(self._path)
+        self.sock = s
 
 
 _PORT_COUNTER = [0]
@@ -107,7 +138,7 @@ _PORT_COUNTER = [0]
 
 def free_port():
     """A loopback port from a range private to this process (no two harness processes race for one port)."""
-    base = 20000 + (os.getpid() % 400) * 100
+    base = 10000 + (os.getpid() % 220) * 100  # below the ephemeral range (32768+) used by client sockets
     for _ in range(100):
         port = base + _PORT_COUNTER[0] % 100
         _PORT_COUNTER[0] += 1
@@ -126,16 +157,32 @@ def free_port():
     return p
 
 
+_SOCK_COUNTER = itertools.count()
+
+
 class Server:
     def __init__(self, cfg, data, flags):
-        self.port = free_port()
+        last = None
+        for attempt in range(4):
+            try:
+                self._start(cfg, data, flags)
+                return
+            except StartupFailure as e:
+                last = e
+                if "ddress already in use" not in str(e) and "Errno 98" not in str(e):
+                    raise
+        raise last
+
+    def _start(self, cfg, data, flags):
+        self.sock_path = os.path.join(os.path.dirname(data), "s%d.sock" % next(_SOCK_COUNTER))
         envv = dict(os.environ, XV_REPO=env.REPO, PYTHONPATH=env.REPO, PYTHONDONTWRITEBYTECODE="1", TZ="UTC", HOME=os.path.dirname(data))
         envv.pop("EMAIL", None)
         if cfg["fe"] == "serve":
-            cmd = [sys.executable, "-m", "xandikos", "serve", "-d", data, "-l", "127.0.0.1", "-p", str(self.port), "--route-prefix", cfg["prefix"], "--current-user-principal", cfg["principal"], "--no-detect-systemd"]
+            # `-l <path>` makes xandikos listen on a unix-domain socket (web.main: "/" in listen_address)
+            cmd = [sys.executable, "-m", "xandikos", "serve", "-d", data, "-l", self.sock_path, "--route-prefix", cfg["prefix"], "--current-user-principal", cfg["principal"], "--no-detect-systemd"]
             cmd += {"defaults": ["--defaults"], "autocreate": ["--autocreate"], "none": []}[flags]
         else:
-            envv.update(XANDIKOSPATH=data, CURRENT_USER_PRINCIPAL=cfg["principal"], XV_PREFIX=cfg["prefix"], XV_PORT=str(self.port))
+            envv.update(XANDIKOSPATH=data, CURRENT_USER_PRINCIPAL=cfg["principal"], XV_PREFIX=cfg["prefix"], XV_SOCK=self.sock_path)
             auto = {"defaults": "defaults", "autocreate": "yes", "none": None}[flags]
             if auto:
                 envv["AUTOCREATE"] = auto
@@ -147,26 +194,30 @@ class Server:
         deadline = time.time() + 40
         while time.time() < deadline:
             try:
-                socket.create_connection(("127.0.0.1", self.port), timeout=0.2).close()
-                if self.proc.poll() is not None:
-                    raise OSError("our server is gone; somebody else listens on the port")
+                c = socket.socket(socket.AF_UNIX, socket.SOCK_STREAM)
+                c.settimeout(0.5)
+                c.connect(self.sock_path)
+                c.close()
                 return
             except OSError:
                 if self.proc.poll() is not None:
                     self.errlog.seek(0)
-                    raise StartupFailure(f"server exited with {self.proc.returncode} during start-up: {self.errlog.read()[-600:].decode('utf-8', 'replace')}")
+                    raise StartupFailure(f"server exited with {self.proc.returncode} during start-up: {self.errlog.read()[-1800:].decode('utf-8', 'replace')}")
                 time.sleep(0.05)
         raise StartupFailure("server did not start listening within 40 s")
 
     def request(self, method, target, headers=None, body=None):
-        c = http.client.HTTPConnection("127.0.0.1", self.port, timeout=30)
+        c = UnixHTTPConnection(self.sock_path, timeout=30)
         try:
             c.putrequest(method, target, skip_accept_encoding=True)
             for k, v in headers or []:
                 c.putheader(k, v)
             if body is not None:
                 c.putheader("Content-Length", str(len(body)))
-            c.endheaders(body)
+            try:
+                c.endheaders(body)
+            except (BrokenPipeError, ConnectionResetError):
+                pass  # the server answered (e.g. with a redirect) without reading the body; the answer is still readable
             r = c.getresponse()
             data = r.read()
             return r.status, dict((k.lower(), v) for k, v in r.getheaders()), data
@@ -184,6 +235,10 @@ class Server:
         except Exception:
             pass
         self.errlog.close()
+        try:
+            os.unlink(self.sock_path)
+        except OSError:
+            pass
 
 
 class StartupFailure(Exception):
